@@ -393,22 +393,26 @@ pub fn epserde_derive(input: TokenStream) -> TokenStream {
                             colon_token: None,
                             bounds: Punctuated::new(),
                         }));
-                        // Add the type bounds to the DeserType
-                        where_clause_des
-                            .predicates
-                            .push(WherePredicate::Type(PredicateType {
-                                lifetimes: Some(BoundLifetimes {
-                                    for_token: token::For::default(),
-                                    lt_token: token::Lt::default(),
-                                    lifetimes,
-                                    gt_token: token::Gt::default(),
-                                }),
-                                bounded_ty: syn::parse_quote!(
-                                    <#ty as epserde::deser::DeserializeInner>::DeserType<'epserde_desertype>
-                                ),
-                                colon_token: token::Colon::default(),
-                                bounds: t.bounds.clone(),
-                        }));
+                        // Add the type bounds to the DeserType (the DeserType of
+                        // a zero-copy type is a reference to the type itself and
+                        // does not mention the DeserType of its parameters)
+                        if !is_zero_copy {
+                            where_clause_des
+                                .predicates
+                                .push(WherePredicate::Type(PredicateType {
+                                    lifetimes: Some(BoundLifetimes {
+                                        for_token: token::For::default(),
+                                        lt_token: token::Lt::default(),
+                                        lifetimes,
+                                        gt_token: token::Gt::default(),
+                                    }),
+                                    bounded_ty: syn::parse_quote!(
+                                        <#ty as epserde::deser::DeserializeInner>::DeserType<'epserde_desertype>
+                                    ),
+                                    colon_token: token::Colon::default(),
+                                    bounds: t.bounds.clone(),
+                            }));
+                        }
                         // Add the type bounds to the SerType
                         where_clause_ser
                             .predicates
@@ -769,22 +773,26 @@ pub fn epserde_derive(input: TokenStream) -> TokenStream {
                             colon_token: None,
                             bounds: Punctuated::new(),
                         }));
-                        // Add the type bounds to the DeserType
-                        where_clause_des
-                            .predicates
-                            .push(WherePredicate::Type(PredicateType {
-                                lifetimes: Some(BoundLifetimes {
-                                    for_token: token::For::default(),
-                                    lt_token: token::Lt::default(),
-                                    lifetimes,
-                                    gt_token: token::Gt::default(),
-                                }),
-                                bounded_ty: syn::parse_quote!(
-                                    <#ty as epserde::deser::DeserializeInner>::DeserType<'epserde_desertype>
-                                ),
-                                colon_token: token::Colon::default(),
-                                bounds: t.bounds.clone(),
-                        }));
+                        // Add the type bounds to the DeserType (the DeserType of
+                        // a zero-copy type is a reference to the type itself and
+                        // does not mention the DeserType of its parameters)
+                        if !is_zero_copy {
+                            where_clause_des
+                                .predicates
+                                .push(WherePredicate::Type(PredicateType {
+                                    lifetimes: Some(BoundLifetimes {
+                                        for_token: token::For::default(),
+                                        lt_token: token::Lt::default(),
+                                        lifetimes,
+                                        gt_token: token::Gt::default(),
+                                    }),
+                                    bounded_ty: syn::parse_quote!(
+                                        <#ty as epserde::deser::DeserializeInner>::DeserType<'epserde_desertype>
+                                    ),
+                                    colon_token: token::Colon::default(),
+                                    bounds: t.bounds.clone(),
+                            }));
+                        }
                         // Add the type bounds to the SerType
                         where_clause_ser
                             .predicates
